@@ -141,6 +141,13 @@ def cases(unit, tier):
         for k in range(6):
             yield ["ioerror", k]
         yield ["shared-message"]
+        n = len(history_values())
+        for i in range(n):
+            for j in range(n):
+                yield ["history", i, j]
+        for mode in ("binary", "text"):
+            for how in ("getattr-delegation", "attribute-rebound"):
+                yield ["rotate", mode, how]
     else:
         yield ["real", 0]
 
@@ -296,6 +303,60 @@ class _Wrap(object):
         self.f.flush()
 
 
+def history_values():
+    """Values that compare (and mostly hash) equal to another value in the list while being encoded
+    differently, or that a per-value memo could confuse: a line must be a function of the message it
+    is written for, never of what the same process wrote before."""
+    d = datetime.date(2020, 2, 29)
+    return [
+        0.0, -0.0, 0, False, 1, True, 1.0, "1",
+        complex(0.0, 1.5), complex(-0.0, 1.5), complex(2.0, -0.0), complex(2.0, 0.0), complex(1, 0), 
+        d, datetime.datetime(2020, 2, 29), datetime.time(0, 0), datetime.time(0, 0, fold=1),
+        Path("a"), Path("a/"), Path("a/."), Path("/a"),
+        [0.0], [-0.0], {"k": complex(-0.0, 0.0)}, {"k": complex(0.0, 0.0)}, {1}, {True}, {1.0},
+    ]
+
+
+def _model_encoding(v):
+    """The documented encoding, written independently of eliot.json (no memo, no dispatch table)."""
+    if isinstance(v, complex):
+        return {"real": v.real, "imag": v.imag}
+    if isinstance(v, (datetime.date, datetime.time)):
+        return v.isoformat()
+    if isinstance(v, Path):
+        return str(v)
+    if isinstance(v, (list, set)):
+        return [_model_encoding(x) for x in v]
+    if isinstance(v, dict):
+        return {k: _model_encoding(x) for k, x in v.items()}
+    return v
+
+
+class _Rotating(object):
+    """A log file that is re-opened now and then (rotation): `write`/`flush` are whatever the stream
+    that is current *now* provides."""
+
+    def __init__(self, mode, how):
+        self._mode, self._how = mode, how
+        self.streams = []
+        self.rotate()
+
+    def rotate(self):
+        if self.streams:
+            self.streams[-1].closed_by_rotation = True
+        st = RecBinary() if self._mode == "binary" else RecText()
+        st.closed_by_rotation = False
+        self.streams.append(st)
+        if self._how == "attribute-rebound":
+            self.write = st.write
+            self.flush = st.flush
+
+    def __getattr__(self, name):
+        if name in ("write", "flush") and self.__dict__.get("_how") == "getattr-delegation":
+            return getattr(self.streams[-1], name)
+        raise AttributeError(name)
+
+
 BASE = {"task_uuid": "u-1", "task_level": [2, 1], "timestamp": 1600000000.25, "message_type": "c10"}
 
 
@@ -354,6 +415,90 @@ def run_case(case):
         if lc != want_a[:1]:
             viol.append(("shared-message:text-destination-lines", {"got": repr(lc)[:300]}))
         return Result(outcome=["shared-message", len(viol)], violations=viol[:3])
+    if case[0] == "history":
+        hv = history_values()
+        a, b = hv[case[1]], hv[case[2]]
+        viol = []
+        out = []
+        for Rec, mode in ((RecBinary, "binary"), (RecText, "text")):
+            def written(f):
+                return [c[1] for c in f.calls if c[0] == "write" and c[1]]
+            f1 = Rec()
+            d1 = FileDestination(file=f1)
+            f1.calls[:] = []
+            d1(dict(BASE, v=a))
+            d1(dict(BASE, v=b))
+            after = written(f1)
+            # the reference: the real encoder on a destination that has seen nothing else ... in a
+            # process whose module-level state has been told to forget (world.fresh) cannot be had
+            # without a new process, so the reference is the same pair in the opposite order plus
+            # the value on its own, compared with each other and with the model's expectation
+            f2 = Rec()
+            d2 = FileDestination(file=f2)
+            f2.calls[:] = []
+            d2(dict(BASE, v=b))
+            alone = written(f2)
+            if len(after) != 2 or len(alone) != 1:
+                viol.append(("history:write-count:" + mode, {"a": repr(a), "b": repr(b)}))
+                continue
+            bad_line = False
+            for pos, val in ((0, a), (1, b)):
+                # both lines: which of two equal-comparing values a memo saw first depends on what this
+                # worker process ran before
+                try:
+                    text = after[pos].decode("utf-8") if isinstance(after[pos], bytes) else after[pos]
+                    got_v = json.loads(text)["v"]
+                except Exception as e:
+                    viol.append(("history:line-unreadable:" + mode, {"error": repr(e)[:100]}))
+                    bad_line = True
+                    break
+                if repr(got_v) != repr(_model_encoding(val)):
+                    # repr() tells -0.0 from 0.0, True from 1 and 1 from 1.0, which == does not
+                    viol.append(("history:line-is-not-the-encoding-of-its-own-message:" + mode, {"pair": [repr(a), repr(b)], "position": pos, "decoded": repr(got_v), "want": repr(_model_encoding(val))}))
+            if bad_line:
+                continue
+            if after[1] != alone[0]:
+                viol.append(("history:line-depends-on-earlier-message:" + mode, {"earlier": repr(a), "value": repr(b), "line_after": repr(after[1])[:200], "line_alone": repr(alone[0])[:200]}))
+            out.append(repr(after[1])[:120])
+        return Result(outcome=["history", out], nontrivial=case[1] != case[2], violations=viol[:2])
+    if case[0] == "rotate":
+        mode, how = case[1], case[2]
+        viol = []
+        rf = _Rotating(mode, how)
+        dest = FileDestination(file=rf)
+        for st in rf.streams:
+            st.calls[:] = []
+        plan = [0, 1, "rotate", 2, "rotate", 3, 4]
+        want = [[0, 1], [2], [3, 4]]
+        raised = []
+        for p in plan:
+            if p == "rotate":
+                rf.rotate()
+            else:
+                try:
+                    dest(dict(BASE, n=p))
+                except Exception as e:
+                    raised.append(repr(e)[:100])
+        got = []
+        shapes_ok = True
+        for st in rf.streams:
+            calls = [c for c in st.calls if not (c[0] == "write" and not c[1])]
+            ns = []
+            for k in range(0, len(calls), 2):
+                pair = calls[k:k + 2]
+                if len(pair) != 2 or pair[0][0] != "write" or pair[1][0] != "flush":
+                    shapes_ok = False
+                    break
+                data = pair[0][1]
+                text = data.decode("utf-8") if isinstance(data, bytes) else data
+                if not text.endswith("\n") or text.count("\n") != 1:
+                    shapes_ok = False
+                    break
+                ns.append(json.loads(text)["n"])
+            got.append(ns)
+        if raised or got != want or not shapes_ok:
+            viol.append(("rotated-file:lines-not-in-the-stream-current-at-the-call", {"mode": mode, "file": how, "got": got, "want": want, "raised": raised[:2], "one_write_one_flush": shapes_ok}))
+        return Result(outcome=["rotate", mode, how, got], violations=viol)
     if case[0] == "ioerror":
         # the file's flush() (k < 3) or write() (k >= 3) fails once with a transient error: whatever the
         # destination does about it, no message may end up in the file twice or torn
